@@ -47,6 +47,11 @@
 (* The digest is an ideal hash: digest(x) = digest(y) iff x = y, so the    *)
 (* digester state is the sequence hashed so far.                           *)
 (*                                                                         *)
+(* The host throttle (internal/pqueue through Resp.next / Resp.Close) is    *)
+(* modelled as the number of slots the response holds (`held`): one more   *)
+(* for every successful request, the previous one is not given back; with  *)
+(* Conc = 3 (regclient's default) NeverSelfBlocked fails (findings/C01-2).  *)
+(*                                                                         *)
 (* Deliberate deviations: one host, no mirrors, no auth round trips, no    *)
 (* Retry-After header; backoffReset's "more than 5 successes" branch is    *)
 (* not reachable within the bounds and is left out; the doubled            *)
@@ -70,7 +75,8 @@ CONSTANTS
   Withs,       \* subset of BOOLEAN: body returns EOF together with the last data
   Chunks,      \* max units one body read returns (1 = byte-wise source, Big = all)
   LyingSizes,  \* BOOLEAN: also descriptors whose size contradicts the digest
-  InlineData   \* BOOLEAN: also descriptors with an inline Data field
+  InlineData,  \* BOOLEAN: also descriptors with an inline Data field
+  Conc         \* config.Host.ReqConcurrent of the registry (regclient's default is 3)
 
 VARIABLES
   scn,       \* the scenario: descriptor, stored content, scheme, access path (constant)
@@ -81,7 +87,8 @@ VARIABLES
   conn,      \* current body: [data |-> units not yet read, end |-> "eof" | "drop"]
   readCur, readMax, rdone, retry,   \* reghttp.Resp: readCur, readMax, done, retryCount
   backoff,   \* reghttp.clientHost.backoffCur
-  reqs, drops, fails,               \* environment budgets used so far
+  held,      \* throttle slots of the host held by this response (pqueue, via Resp.throttleDone)
+  drops, fails,                     \* environment budgets used so far
   lim,       \* limitread.LimitRead.Limit, NoLim when there is no LimitRead
   rbytes,    \* blob.BReader.readBytes
   bsize,     \* blob.BReader.desc.Size (set at EOF when it was 0)
@@ -91,7 +98,7 @@ VARIABLES
   ret,       \* last return value seen by the caller
   seeks, again
 
-tvars == <<conn, readCur, readMax, rdone, retry, backoff, reqs, drops, fails>>
+tvars == <<conn, readCur, readMax, rdone, retry, backoff, held, drops, fails>>
 rvars == <<lim, rbytes, bsize, hashed>>
 vars == <<scn, pc, why, pend, src, tvars, rvars, got, cst, ret, seeks, again>>
 
@@ -147,7 +154,7 @@ Init ==
   /\ pc = "closed" /\ why = "open" /\ pend = NoPend /\ src = "none"
   /\ conn = [data |-> <<>>, end |-> "eof"]
   /\ readCur = 0 /\ readMax = 0 /\ rdone = FALSE /\ retry = 0 /\ backoff = 0
-  /\ reqs = 0 /\ drops = 0 /\ fails = 0
+  /\ held = 0 /\ drops = 0 /\ fails = 0
   /\ lim = NoLim /\ rbytes = 0 /\ bsize = 0 /\ hashed = <<>>
   /\ got = <<>> /\ cst = "reading" /\ ret = [seq |-> 0, op |-> "none", n |-> 0, err |-> "none"]
   /\ seeks = 0 /\ again = 0
@@ -197,7 +204,7 @@ BackoffReset == IF backoff > RetryLimit THEN backoff - 1 ELSE backoff
 \* ------------------------------------------------------------------ caller
 Open ==
   /\ pc = "closed"
-  /\ UNCHANGED <<scn, why, pend, readCur, rdone, retry, backoff, reqs, drops, fails, got, cst,
+  /\ UNCHANGED <<scn, why, pend, readCur, rdone, retry, backoff, held, drops, fails, got, cst,
                  seeks, again>>
   /\ IF DataOK
      THEN /\ src' = "mem" /\ pc' = "ready"
@@ -219,7 +226,7 @@ PlainRead(k) ==
   LET b == BodyRead(k, FALSE, Big) IN
   /\ conn' = [conn EXCEPT !.data = b.rest]
   /\ Deliver(b.n, b.data, b.err)
-  /\ UNCHANGED <<readCur, readMax, rdone, retry, backoff, reqs, drops, fails, pc, why, pend>>
+  /\ UNCHANGED <<readCur, readMax, rdone, retry, backoff, held, drops, fails, pc, why, pend>>
 
 \* internal/reghttp/http.go:Resp.Read
 RespRead(k) ==
@@ -230,7 +237,7 @@ RespRead(k) ==
            cur2 == readCur + b.n
        IN /\ conn' = [conn EXCEPT !.data = b.rest]
           /\ readCur' = cur2
-          /\ UNCHANGED <<readMax, retry, reqs, drops, fails>>
+          /\ UNCHANGED <<readMax, retry, held, drops, fails>>
           /\ IF b.err = "none"
              THEN /\ Deliver(b.n, b.data, "none")
                   /\ UNCHANGED <<rdone, backoff, pc, why, pend>>
@@ -267,7 +274,7 @@ ResetReader ==
 Seek0 ==
   /\ pc = "ready" /\ seeks < MaxSeeks /\ scn.via = "reader"
   /\ seeks' = seeks + 1
-  /\ UNCHANGED <<scn, src, again, pend, readMax, rdone, backoff, reqs, drops, fails>>
+  /\ UNCHANGED <<scn, src, again, pend, readMax, rdone, backoff, held, drops, fails>>
   /\ IF src = "http" /\ readCur # 0
      THEN /\ readCur' = 0 /\ retry' = retry - 1                 \* http.go:Resp.Seek
           /\ pc' = "req" /\ why' = "seek"
@@ -307,12 +314,13 @@ Succeed(body, end, clv) ==
 GiveUp ==
   /\ pc = "req" /\ retry > RetryLimit                                        \* http.go:274
   /\ Fail
-  /\ UNCHANGED <<scn, why, src, conn, readCur, readMax, retry, backoff, reqs, drops, fails,
+  /\ UNCHANGED <<scn, why, src, conn, readCur, readMax, retry, backoff, held, drops, fails,
                  seeks, again>>
 
 ServeErr(kind) ==
   /\ pc = "req" /\ retry <= RetryLimit /\ fails < MaxFails
-  /\ retry' = retry + 1 /\ reqs' = reqs + 1 /\ fails' = fails + 1
+  /\ held < Conc                              \* pqueue.Acquire; released again after the failed attempt
+  /\ retry' = retry + 1 /\ fails' = fails + 1 /\ UNCHANGED held
   /\ UNCHANGED <<scn, why, src, conn, readCur, readMax, drops, seeks, again>>
   /\ IF kind = "http404"
      THEN Fail /\ UNCHANGED backoff                                          \* dropHost
@@ -346,24 +354,25 @@ ServeOK(r) ==
   /\ r.cl = "minus" => Len(full) > 0
   /\ r.cr = "lying" => r.start # readCur
   /\ drops' = IF r.cut = NoCut THEN drops ELSE drops + 1
-  /\ retry' = retry + 1 /\ reqs' = reqs + 1
+  /\ held < Conc                                                             \* pqueue.Acquire
+  /\ retry' = retry + 1
   /\ UNCHANGED <<scn, why, src, readCur, backoff, fails, seeks, again>>
   /\ IF readCur = 0 /\ clv >= 0 /\ readMax > 0 /\ readMax # clv
      THEN \* http.go:493 unexpected content-length: plain error, the loop tries again
-          UNCHANGED <<pc, pend, conn, readMax, rdone, rvars, got, cst, ret>>
+          UNCHANGED <<pc, pend, conn, readMax, rdone, rvars, got, cst, ret, held>>
      ELSE /\ readMax' = IF readCur = 0 /\ clv >= 0 /\ readMax <= 0 THEN clv ELSE readMax
           /\ IF RangeReq /\ r.cr = "absent"
-             THEN Fail /\ UNCHANGED conn                                     \* http.go:500
-             ELSE Succeed(body, IF r.cut = NoCut THEN "eof" ELSE "drop", clv)
+             THEN Fail /\ UNCHANGED <<conn, held>>                           \* http.go:500
+             ELSE \* http.go:508: resp.throttleDone = throttleDone -- the slot of this request is
+                  \* kept until Close and the slot kept for the previous request of the same
+                  \* response is forgotten, not released (findings/C01-2.md)
+                  /\ held' = held + 1
+                  /\ Succeed(body, IF r.cut = NoCut THEN "eof" ELSE "drop", clv)
 
-Next ==
-  \/ Open
-  \/ \E k \in KS : Read(k)
-  \/ Seek0
-  \/ Stop
-  \/ GiveUp
-  \/ \E kind \in {"neterr", "http500", "http404"} : ServeErr(kind)
-  \/ \E r \in Replies : ServeOK(r)
+ReadAny == \E k \in KS : Read(k)
+ServeErrAny == \E kind \in {"neterr", "http500", "http404"} : ServeErr(kind)
+ServeOKAny == \E r \in Replies : ServeOK(r)
+Next == Open \/ ReadAny \/ Seek0 \/ Stop \/ GiveUp \/ ServeErrAny \/ ServeOKAny
 
 Done == pc = "stopped"
 Spec == Init /\ [][Next]_vars
@@ -381,5 +390,10 @@ CountIsGot == pc = "ready" => (rbytes = Len(got) /\ (src = "http" => readCur = L
 Bounded == lim # NoLim => Len(got) <= bsize + 1
 \* every return of io.EOF by BReader.Read / RawBody / ReadFile-walk is verified, also after an error
 EofVerified == (ret.op = "read" /\ ret.err = "eof" /\ Check # "none") => got = scn.intended
+\* a request of the stream never waits for throttle slots that only the stream itself holds
+\* (false with Conc = 3: C01_mc_throttle.cfg, findings/C01-2.md)
+NeverSelfBlocked == ~(pc = "req" /\ retry <= RetryLimit /\ held >= Conc)
+\* a clean end never leaves part of the current body / file / inline data unread
+NoLeftover == (cst = "clean" /\ pc = "ready") => conn.data = <<>>
 EofSized == (ret.op = "read" /\ ret.err = "eof" /\ Check = "full" /\ scn.size > 0) => Len(got) = scn.size
 =============================================================================
